@@ -664,6 +664,6 @@ Section Expr.
     | EDiv a b => bind (eval a) (fun x => bind (eval b) (fun y => qdiv N x y))
     | ENeg a => bind (eval a) (fun x => Ok (qneg N x))
     | EPow a n => bind (eval a) (fun x => qpow N x n)
-    | EConv a u => bind (eval a) (fun x => convert_to N tbl res keys x u)
+    | EConv a u => bind (eval a) (fun x => vm_convert N tbl res keys x (from_unit N u))   (* vm.rs Op::ConvertTo *)
     end.
 End Expr.
